@@ -103,17 +103,23 @@ type SpecFunc struct {
 	Sort   string // result sort for recursive functions (Int/Bool)
 }
 
+type ModGroup struct {
+	Params  []string
+	Targets []*SExpr
+}
+
 type SpecDB struct {
 	Contracts map[string]*Contract
 	Funcs     map[string]*SpecFunc
 	Axioms    []*Clause
 	GhostSort map[string]string // ghost (global or field) name -> sort
+	ModGroups map[string]*ModGroup
 	Files     map[string]string // path -> sha256
 	PropFuncs map[string][]string
 }
 
 func newSpecDB() *SpecDB {
-	return &SpecDB{Contracts: map[string]*Contract{}, Funcs: map[string]*SpecFunc{}, GhostSort: map[string]string{}, Files: map[string]string{}, PropFuncs: map[string][]string{}}
+	return &SpecDB{Contracts: map[string]*Contract{}, Funcs: map[string]*SpecFunc{}, GhostSort: map[string]string{}, ModGroups: map[string]*ModGroup{}, Files: map[string]string{}, PropFuncs: map[string][]string{}}
 }
 
 // ---- lexer ----
@@ -574,6 +580,30 @@ func (db *SpecDB) loadFile(path, pkgShort string, slashAt bool) error {
 				sf.Sort = SBool
 			}
 			db.Funcs[sf.Name] = sf
+			cur = nil
+		case "modgroup":
+			// modgroup Name(p1, p2) = target, target, ...
+			eq := strings.Index(rest, " = ")
+			if eq < 0 {
+				return fmt.Errorf("%s: bad modgroup", pos)
+			}
+			hdr := strings.TrimSpace(rest[:eq])
+			lp := strings.Index(hdr, "(")
+			rp := strings.LastIndex(hdr, ")")
+			mg := &ModGroup{}
+			for _, a := range strings.Split(hdr[lp+1:rp], ",") {
+				if a = strings.TrimSpace(a); a != "" {
+					mg.Params = append(mg.Params, a)
+				}
+			}
+			for _, part := range splitTop(rest[eq+3:]) {
+				e, err := parseExpr(part, pos)
+				if err != nil {
+					return err
+				}
+				mg.Targets = append(mg.Targets, e)
+			}
+			db.ModGroups[strings.TrimSpace(hdr[:lp])] = mg
 			cur = nil
 		case "axiom":
 			cl, err := parseClause(rest, pos)
